@@ -149,10 +149,21 @@ func sublists(entries []string, max int) [][]string {
 		}
 	}
 	if max >= 3 {
-		for i := range entries {
-			for j := i + 1; j < len(entries); j++ {
-				for k := j + 1; k < len(entries); k++ {
-					out = append(out, []string{entries[i], entries[j], entries[k]})
+		// triples over a core of the menu (one entry of each kind: two overlapping IPv4 networks,
+		// single addresses of both families, an IPv6 network, match-all, malformed, blank, a
+		// mapped address): the product of two triple lists over the whole menu is half a
+		// million instances
+		var core []string
+		for _, e := range entries {
+			switch e {
+			case "10.0.0.0/8", "10.1.0.0/16", "127.0.0.1", "::1", "2001:db8::/32", "0.0.0.0/0", "abc", "", "::ffff:10.0.0.1":
+				core = append(core, e)
+			}
+		}
+		for i := range core {
+			for j := i + 1; j < len(core); j++ {
+				for k := j + 1; k < len(core); k++ {
+					out = append(out, []string{core[i], core[j], core[k]})
 				}
 			}
 		}
@@ -430,7 +441,7 @@ func TestVerifC10(t *testing.T) {
 		}
 	}
 	r.AddScenario(vres.Scenario{Name: "admin-access-control", Engine: "W", Evaluations: evals, Distinct: int64(outs.N()), Outcomes: outs.N(),
-		Rule:  "IP product: allow-list x deny-list (all sub-lists up to the size bound of 8 entries incl. overlapping and two malformed ones) x 14 peer addresses (IPv4, IPv6, IPv4-mapped, zoned, non-canonical spellings) x 6 forged-header variants x endpoints; token product: token configured or not x 11 Authorization spellings x 10 endpoint/method pairs x peers; 17 tokens with characters a configuration layer might interpret, loaded through the real LoadConfig from YAML; judged by a net/netip reference policy; distinct = (reference verdict, served) classes",
+		Rule:  "IP product: allow-list x deny-list (all sub-lists of up to two entries of the 16-entry menu, in the thorough tier also all triples over a 9-entry core (overlapping networks, both families, mapped, match-all, malformed, blank)) x 14 peer addresses (IPv4, IPv6, IPv4-mapped, zoned, non-canonical spellings) x 6 forged-header variants x endpoints; token product: token configured or not x 11 Authorization spellings x 10 endpoint/method pairs x peers; 17 tokens with characters a configuration layer might interpret, loaded through the real LoadConfig from YAML; judged by a net/netip reference policy; distinct = (reference verdict, served) classes",
 		Bound: fmt.Sprintf("sub-lists of size <= %d (%d x %d list pairs)", maxList, len(lists), len(lists)), Exhaustive: true, Sample: sample,
 		Extra: map[string]interface{}{"wall_s": time.Since(start).Seconds()}})
 }
